@@ -237,6 +237,42 @@ theorem finalize_releases_stable (br : BR) (op : Op) (c : Cfg) (w : World) (exp 
           rcases dropFn_some hdf with h | ⟨_, h⟩ <;> subst h <;> simp [releaseStable]
   · rfl
 
+/-- **C11 / C05 `finalize_done_means_resumed`** — whenever `Finalize` under finalizing policy WaitResume
+    returns no error — the only way the BatchRelease reaches `Completed` — the stable Deployment *as stored
+    after the call* is really promoted: not paused, `status.replicas = status.updatedReplicas`, availability
+    within maxUnavailable (or the Deployment does not exist).  For every world — in particular the world a
+    failed earlier attempt left behind: already released, already resumed, pods not yet updated — and every
+    fault index. -/
+theorem finalize_done_means_resumed (br : BR) (op : Op) (c : Cfg) (w : World) (exp : Exp)
+    (hnd : namesNodup w = true) :
+    finalizeDoneMeansResumed br op (call br op c w exp) = true := by
+  unfold finalizeDoneMeansResumed
+  split
+  · rename_i h
+    obtain ⟨hop, hres, hwr⟩ := h
+    subst hop
+    have hndw : (names w).Nodup := (namesNodup_iff w).mp hnd
+    have hres' : (planeFinalize c br (S0 w exp)).2 = .ok := hres
+    obtain ⟨w1, ids, hw1, hw', _, _, _⟩ := planeFinalize_spec c br w exp
+    have hwc : (call br .fin c w exp).w = dropAll w1 ids := hw'
+    rw [hwc]
+    rcases hw1 with ⟨h1, h2⟩ | ⟨h1, h2⟩
+    · subst h1
+      rw [find_dropAll ids br.key hndw, h2 hres']
+      rfl
+    · subst h2
+      have hnd1 : (names (w.modify br.key (releaseStable br.partition.isSome))).Nodup := by
+        rw [names_modify _ _ _ (by intro d; rfl)]; exact hndw
+      rw [find_dropAll ids br.key hnd1]
+      rcases planeFinalize_wait c br w exp hres' hwr with hnone | ⟨d, hd, hwd⟩
+      · rw [hnone] at h1; cases h1
+      · rw [hd]
+        simp only [Option.bind_some]
+        cases hdf : dropFn ids d with
+        | none => rfl
+        | some d' => simp [wait_dropFn hdf, hwd]
+  · rfl
+
 /-- **C05** — no call changes anything of the stable Deployment except its control-info annotation and
     `spec.paused` (and the generation the API server bumps with it): template, replicas, strategy, owner,
     finalizers stay as the user configured them; `paused` changes only in `Finalize`, control-info only in
@@ -527,6 +563,25 @@ theorem initialize_single_canary (br : BR) (steps : List Step) (w : World) (exp 
       have := ih (step br w exp st).w (step br w exp st).exp hndo
         (fun s hs => hev s (List.mem_cons_of_mem _ hs)) o ho
       omega
+
+/-- **C11 `finalize_done_means_resumed`, over runs** — along every run (any retry history: earlier `Finalize`
+    attempts that failed in the wait or at any fault index, events in between), every `Finalize` call that
+    returns no error under WaitResume leaves the stored stable Deployment resumed and fully updated. -/
+theorem finalize_done_means_resumed_run (br : BR) (steps : List Step) (w : World) (exp : Exp)
+    (hnd : namesNodup w = true) :
+    ∀ p ∈ List.zip steps (run br w exp steps),
+      finalizeDoneMeansResumed { br with currentBatch := p.1.currentBatch } p.1.op p.2 = true := by
+  induction steps generalizing w exp with
+  | nil => intro p hp; cases hp
+  | cons st rest ih =>
+    intro p hp
+    have hnde := applyEvent_nodup br st.ev w exp ((namesNodup_iff w).mp hnd)
+    simp only [run, List.zip_cons_cons, List.mem_cons] at hp
+    rcases hp with rfl | hp
+    · exact finalize_done_means_resumed { br with currentBatch := st.currentBatch } st.op st.cfg
+        (applyEvent br st.ev w exp).1 (applyEvent br st.ev w exp).2 ((namesNodup_iff _).mpr hnde)
+    · exact ih (step br w exp st).w (step br w exp st).exp
+        ((namesNodup_iff _).mpr (call_nodup _ _ _ _ _ hnde)) p hp
 
 /-- **C01 `canary_replicas_within_step`, over runs** — let `R` be the replicas of the (un-owned) stable
     Deployment and `B ≥ 0` a bound on `CalculateBatchReplicas(R, batches[i])` for every batch index `i` the
